@@ -16,7 +16,7 @@
     PARTIAL: HTTP, JSON, dpath, PyYAML and pytest are outside these theorems; the tie to the
     code is the correspondence run of harness/c20.py. *)
 From Coq Require Import ZArith QArith Qabs List Bool String.
-From Verif Require Import Base Cal Period Engine EngineProofs Api ApiSpec ApiProofs.
+From Verif Require Import Base Cal Period Param Engine EngineProofs Api ApiSpec ApiProofs.
 Import ListNotations.
 Open Scope string_scope.
 
@@ -133,7 +133,24 @@ Theorem layouts_equivalent :
 Proof. exact layouts_equiv. Qed.
 Print Assumptions layouts_equivalent.
 
+(** /parameter/<id> of a leaf parameter lists exactly the entries of its history (date as ISO
+    text, value or null), and the value the engine uses on a day, [Param.get_at] (C06), is the
+    value of the listed entry with the greatest date on or before that day. *)
+Theorem parameter_listing_in_force : forall (h : hist Z), decreasing h ->
+  api_parameter_values h = map (fun kv => (iso_date (of_ord (fst kv)), snd kv)) h
+  /\ forall (d k : Z) (v : option Z), In (k, v) h -> (k <= d)%Z ->
+       (forall k' v', In (k', v') h -> (k' <= d)%Z -> (k' <= k)%Z) -> get_at h d = v.
+Proof. exact parameter_listing. Qed.
+Print Assumptions parameter_listing_in_force.
+
 (** * Non-vacuity *)
+
+Example ex_parameter :
+  let h : hist Z := [(ord (2018, 7, 1), None); (ord (2015, 1, 1), Some 4); (ord (2000, 1, 1), Some 3)]%Z in
+  decreasing h
+  /\ api_parameter_values h = [("2018-07-01", None); ("2015-01-01", Some 4%Z); ("2000-01-01", Some 3%Z)]
+  /\ get_at h (ord (2016, 2, 29)%Z) = Some 4%Z.
+Proof. vm_compute. repeat split; reflexivity. Qed.
 
 Definition ex_vars (v : string) : option (jtype * string) :=
   if String.eqb v "salary" then Some (JFloat, "persons")
